@@ -17,6 +17,12 @@ package main
 //	(opt <word>) (tp <alt>) (fp <alt>) (nmc) (doc) (ct <neg> <word>)
 //	(domain ((<neg> <value>)…)) (denyallow (<value>…)) (dnstype ((<neg> <name>)…))
 //	(ctag ((<neg> <value>)…)) (client ((<neg> <value>)…))
+//
+// Wider grammar (group P2, lean/UF/Compose5/GrammarW.lean): a `$client` list with at least one QUOTED name is
+//
+//	(clientq ((<neg> <p|s|d> <value or NAME>)…))     p = bare, s = 'name', d = "name" (the name UNESCAPED)
+//
+// `~extension` is (next), and the pattern may begin with `/` (not a /regex/).
 
 import (
 	"bufio"
@@ -31,10 +37,12 @@ func init() { gens["l.textref"] = genLTextRef }
 type lVal struct {
 	neg bool
 	v   string
+	// quote is 0 for a bare value, '\'' or '"' for a quoted client name (v is the name itself).
+	quote byte
 }
 
 type lMod struct {
-	kind string // opt tp fp nmc doc ct domain denyallow dnstype ctag client
+	kind string // opt tp fp nmc doc ct domain denyallow dnstype ctag client next
 	word string // option / content-type constructor name
 	text string // its spelling
 	alt  bool
@@ -67,11 +75,26 @@ var (
 )
 
 func lRenderVal(v lVal) string {
+	t := v.v
+	if v.quote != 0 {
+		q := string([]byte{v.quote})
+		t = q + strings.ReplaceAll(v.v, q, "\\"+q) + q
+	}
 	if v.neg {
-		return "~" + v.v
+		return "~" + t
 	}
 
-	return v.v
+	return t
+}
+
+func lHasQuoted(m lMod) bool {
+	for _, v := range m.vals {
+		if v.quote != 0 {
+			return true
+		}
+	}
+
+	return false
 }
 
 func lRenderMod(m lMod) string {
@@ -102,6 +125,8 @@ func lRenderMod(m lMod) string {
 		return "~match-case"
 	case "doc":
 		return "document"
+	case "next":
+		return "~extension"
 	case "ct":
 		if m.neg {
 			return "~" + m.text
@@ -143,8 +168,25 @@ func lWireMod(m lMod) string {
 		return wlist("opt", m.word)
 	case "tp", "fp":
 		return wlist(m.kind, wbool(m.alt))
-	case "nmc", "doc":
+	case "nmc", "doc", "next":
 		return wlist(m.kind)
+	case "client":
+		if !lHasQuoted(m) {
+			return wlist(m.kind, vals())
+		}
+		items := make([]string, len(m.vals))
+		for i, v := range m.vals {
+			k := "p"
+			switch v.quote {
+			case '\'':
+				k = "s"
+			case '"':
+				k = "d"
+			}
+			items[i] = wlist(wbool(v.neg), k, wb(v.v))
+		}
+
+		return wlist("clientq", wlist(items...))
 	case "ct":
 		return wlist("ct", wbool(m.neg), m.word)
 	case "denyallow":
@@ -249,6 +291,49 @@ func lGenMods(r *rng, exc bool) (ms []lMod) {
 	return ms
 }
 
+// names written in quotes: blanks, apostrophes, the other quote character, `~`, and names that also occur bare
+var lPoolQNames = []string{"Kids-PC", "Frank's phone", "Mary's laptop", `say "hi"`, "~tilde", "x y", "laptop", "tv",
+	"'", `"`, `a'b"c`, "10.0.0.5", "x=y", "Frank", "pc2", "''", "2001:db8::1"}
+
+// patterns beginning with `/` that are not /regex/ rules (the last one IS one when modifiers follow)
+var lPoolSlashPatterns = []string{"/banner.gif", "/ads/banner", "/x.js?y=1", "/example", "/ad/*", "/banner^", "/ws", "/banner/"}
+
+// lGenModsW widens lGenMods (which l.c07text shares and must keep as it is): some `$client` values become quoted
+// names, and `~extension` is sometimes added.
+func lGenModsW(r *rng, exc bool) (ms []lMod) {
+	ms = lGenMods(r, exc)
+	for i := range ms {
+		if ms[i].kind != "client" || r.chance(1, 2) {
+			continue
+		}
+		for j := range ms[i].vals {
+			if r.chance(1, 2) {
+				continue
+			}
+			v := &ms[i].vals[j]
+			v.quote = '\''
+			if r.chance(1, 2) {
+				v.quote = '"'
+			}
+			if r.chance(2, 3) {
+				v.v = pick(r, lPoolQNames)
+			}
+			if strings.ContainsAny(v.v, ",|\\$") || v.v == "" {
+				v.v = "tv"
+			}
+		}
+	}
+	if len(ms) > 0 && r.chance(1, 12) {
+		ms = append(ms, lMod{kind: "next"})
+		if r.chance(1, 3) {
+			ms = append(ms, lMod{kind: "opt", word: "extension", text: "extension"})
+		}
+		shuffle(r, ms)
+	}
+
+	return ms
+}
+
 func genLTextRef(r *rng, n int, w *bufio.Writer) {
 	r = eReseed(r)
 	for i := 0; i < n; i++ {
@@ -257,8 +342,13 @@ func genLTextRef(r *rng, n int, w *bufio.Writer) {
 		if r.chance(1, 3) {
 			pat = genPattern(r)
 		}
-		// keep to the pattern domain of the reference (mask patterns, no `$`, no backslash, not `/…`, not `@…`)
-		if pat == "" || pat[0] == '@' || pat[0] == '/' || strings.ContainsAny(pat, "$\\") {
+		if r.chance(1, 8) {
+			pat = pick(r, lPoolSlashPatterns)
+		}
+		// keep to the pattern domain of the reference (mask patterns, no `$`, no backslash, not `@…`; `/…` only when
+		// it is not a /regex/)
+		if pat == "" || pat[0] == '@' || strings.ContainsAny(pat, "$\\") ||
+			(pat[0] == '/' && pat != "/banner/" && strings.HasSuffix(pat, "/")) {
 			pat = "||example.org^"
 		}
 		var ms []lMod
@@ -266,7 +356,7 @@ func genLTextRef(r *rng, n int, w *bufio.Writer) {
 		var err error
 		var text string
 		for k := 0; ; k++ {
-			ms = lGenMods(r, exc)
+			ms = lGenModsW(r, exc)
 			text = lRender(exc, pat, ms)
 			f, err = guardRule(text, 1)
 			if err == nil || r.chance(1, 15) || k > 30 {
